@@ -196,13 +196,15 @@ def _stage(sps, targets):
     return None
 
 
-def ob_stage(n: int, i: int, j: int, same_target: bool) -> Optional[str]:
-    if not (1 <= n <= 2 and 0 <= i < len(SPELLINGS) and 0 <= j < len(SPELLINGS)):
+def ob_stage(n: int, i: int, j: int, same_target: bool, k: int = 0) -> Optional[str]:
+    if not (1 <= n <= 3 and 0 <= i < len(SPELLINGS) and 0 <= j < len(SPELLINGS) and 0 <= k < len(SPELLINGS)):
         raise Skip()
     if n == 1 and (j != 0 or same_target):
         raise Skip()
-    sps = [_pick(SPELLINGS, i)] + ([_pick(SPELLINGS, j)] if n == 2 else [])
-    targets = ["f0", "f0" if same_target else "f1"][: len(sps)]
+    if n < 3 and k != 0:
+        raise Skip()
+    sps = [_pick(SPELLINGS, i)] + ([_pick(SPELLINGS, j)] if n >= 2 else []) + ([_pick(SPELLINGS, k)] if n == 3 else [])
+    targets = ["f0", "f0" if same_target else "f1", "f2"][: len(sps)]
     r = concretely(_stage, sps, targets)
     if r:
         k, rest = r.split(":", 1)
@@ -424,9 +426,12 @@ OBLIGATIONS = [
                bounds="complete tokenizer redirect language (regex, unbounded strings) vs the decoder regex and maps; every spelling of the finite table",
                symbolic="one symbolic string (z3 regex membership)"),
     Obligation("stage_redirects", ob_stage,
-               bounds=f"one stage with 1 or 2 redirects, each operator any of the {NSP} spellings of the tokenizer's table, same or different target",
-               pre=[f"0 <= i < {NSP}", f"0 <= j < {NSP}"],
-               parts={"quick": [dict(n=1)] + [dict(n=2, same_target=b) for b in (False, True)]}, timeout={"quick": 240, "thorough": 600},
+               bounds=f"one stage with 1 or 2 (thorough: 3) redirects, each operator any of the {NSP} spellings of the tokenizer's table, same or different target",
+               pre=[f"0 <= i < {NSP}", f"0 <= j < {NSP}", f"0 <= k < {NSP}"],
+               parts={"quick": [dict(n=1, k=0)] + [dict(n=2, same_target=b, k=0) for b in (False, True)],
+                      "thorough": [dict(n=1, k=0)] + [dict(n=2, same_target=b, k=0) for b in (False, True)]
+                                  + [dict(n=3, same_target=False, i=a) for a in range(len(SPELLINGS))]},
+               timeout={"quick": 240, "thorough": 600},
                symbolic="two spelling indices"),
     Obligation("pipeline_wiring", ob_pipeline,
                bounds=f"pipelines of 2..3 stages, optional redirect (any of the {NSP} spellings) on any stage, optional trailing '&'",
